@@ -384,6 +384,21 @@ namespace
             }
             if (callee->isConstexpr())
                 o["cx"] = true;
+            if (const TemplateArgumentList* tal = callee->getTemplateSpecializationArgs())
+            {
+                json::Array ta;
+                for (unsigned i = 0; i < tal->size() && i < 4; ++i)
+                {
+                    const TemplateArgument& a = tal->get(i);
+                    if (a.getKind() == TemplateArgument::Integral)
+                        ta.push_back((int64_t) a.getAsIntegral().getExtValue());
+                    else if (a.getKind() == TemplateArgument::Type)
+                        ta.push_back(a.getAsType().getCanonicalType().getAsString(PP).substr(0, 200));
+                    else
+                        ta.push_back(nullptr);
+                }
+                o["targs"] = std::move(ta);
+            }
             {
                 // which parameters may be written through (non-const lvalue reference / pointer)
                 json::Array pw;
@@ -796,6 +811,8 @@ namespace
                     bo["n"] = b->getName().str();
                     if (const Expr* be = b->getBinding())
                         bo["be"] = emitExpr(be);
+                    if (const VarDecl* hv = b->getHoldingVar())
+                        bo["hv"] = emitVar(hv);
                     bs.push_back(std::move(bo));
                 }
                 o["bindings"] = std::move(bs);
